@@ -466,7 +466,8 @@ func runBatchCheck(bc *BatchCheck, tier string) *evid.Report {
 					r.Internal(err.Error())
 					return
 				}
-				timer := time.AfterFunc(time.Until(stopAt)+10*time.Second, func() { c.Process.Kill() })
+				killedAtDeadline := false
+				timer := time.AfterFunc(time.Until(stopAt)+10*time.Second, func() { killedAtDeadline = true; c.Process.Kill() })
 				sc := bufio.NewScanner(so)
 				sc.Buffer(make([]byte, 1<<20), 64<<20)
 				current := ""
@@ -489,6 +490,9 @@ func runBatchCheck(bc *BatchCheck, tier string) *evid.Report {
 				timer.Stop()
 				if err == nil {
 					return
+				}
+				if killedAtDeadline {
+					return // stopped by the check's own deadline: the case is not finished (exhaustive=false), it did not die
 				}
 				if current == "" {
 					r.Internal("batch binary failed outside a case: " + trunc(stderr.String(), 500))
